@@ -429,11 +429,50 @@ func runCheck(cmd, prop, tier, repo, root, only string, keep, verbose, writeExpe
 					break
 				}
 			}
+			// the body of every loop under contract is reachable (an unreachable body makes its invariants
+			// and per-iteration clauses hold vacuously -- e.g. when a decoder call was modelled as leaving its
+			// output untouched, the "empty chunk" error return swallowed the whole record loop)
+			failedIn := func() bool {
+				for _, rep := range reports {
+					if rep != nil && strings.HasPrefix(rep.Name, r.Name+"#") && rep.Result != "unsat" {
+						return true
+					}
+				}
+				return false
+			}
+			for _, lp := range c.loopPCs {
+				lo := &Obligation{Name: fmt.Sprintf("%s#vacuity:loop%d", r.Name, lp.ord), Decls: len(c.decls), PC: lp.pc, Goal: "", Ctx: c, Full: true}
+				b3 := quickSolve(buildQuery(lo, false, false), smtDir, lo.Name, 3)
+				vmu.Lock()
+				vacs = append(vacs, vac{r.Name, fmt.Sprintf("canary-loop%d-body-reachable", lp.ord), b3.Result})
+				if b3.Result == "unsat" {
+					if failedIn() {
+						fmt.Printf("note: the body of loop %d of %s is unreachable once its failed obligation is assumed (reported above as a violation)\n", lp.ord, r.Name)
+					} else {
+						broken = true
+						fmt.Printf("BROKEN: the body of loop %d of %s is unreachable under its assumptions (its loop contract would hold vacuously)\n", lp.ord, r.Name)
+					}
+				}
+				vmu.Unlock()
+			}
 			vmu.Lock()
 			vacs = append(vacs, vac{r.Name, "canary-exit-reachable", reach})
 			if reach == "none" && len(c.exitPCs) > 0 {
-				broken = true
-				fmt.Printf("BROKEN: no exit of %s is reachable under its assumptions (ensures false would be provable)\n", r.Name)
+				// a failed assertion / invariant / callee precondition is assumed after its check, so a function
+				// in which one fails on every path has no reachable exit *because of the reported violation*:
+				// that is the violation's doing, not a vacuous contract
+				failedInside := false
+				for _, rep := range reports {
+					if rep != nil && strings.HasPrefix(rep.Name, r.Name+"#") && rep.Result != "unsat" {
+						failedInside = true
+					}
+				}
+				if failedInside {
+					fmt.Printf("note: no exit of %s is reachable once its failed obligation is assumed (reported above as a violation)\n", r.Name)
+				} else {
+					broken = true
+					fmt.Printf("BROKEN: no exit of %s is reachable under its assumptions (ensures false would be provable)\n", r.Name)
+				}
 			}
 			vmu.Unlock()
 		}(r)
